@@ -506,3 +506,89 @@ def c06_raw_vs_index_pool(e: int, x: int, m: int, lo: int, hi: int) -> int:
 
 
 CODES_P[-9] = 'the raw-reference path and generateIndex digest the canonical pool with different parameters'
+
+
+# --------------------------------------------------------------------------
+# version gate: an index whose recorded versions do not match is rejected before anything is loaded
+# --------------------------------------------------------------------------
+class _GateIndexDir:
+    """records the order of calls; the REAL IndexDir.validate_metadata / MetaVersion.is_valid run"""
+    last = None
+    recorded = None
+
+    def __init__(self, path):
+        self.calls = []
+        self.metadata = IndexMetadata(version=_GateIndexDir.recorded, canonical_pools=[], source='S')
+        _GateIndexDir.last = self
+
+    def validate_metadata(self):
+        self.calls.append('validate')
+        return IndexDir.validate_metadata(self)
+
+    def load_canonical_peptides(self, cp):
+        self.calls.append('pool')
+        return {'POOL'}
+
+    def load_genome(self):
+        self.calls.append('genome')
+        return 'GENOME'
+
+    def load_annotation(self):
+        self.calls.append('anno')
+        return _AnnoOnDisk()
+
+    def load_proteome(self):
+        self.calls.append('proteome')
+        return _Proteome()
+
+
+def _gate(py_same, bio_same, a, b, c, load_genome, load_pool, load_proteome, as_noncoding):
+    cur = MetaVersion()
+    _GateIndexDir.recorded = MetaVersion(python=cur.python if py_same else '2.7.18',
+                                         biopython=cur.biopython if bio_same else '0.1',
+                                         mopepgen=f'{concretize(a, 0, 2)}.{concretize(b, 0, 4)}.{concretize(c, 0, 1)}')
+    valid = py_same and bio_same and (a, b, c) >= (1, 3, 0)
+    args = _args(0, 0, 2, 500, 7, 25)
+    args.index_dir = 'IDX'
+    cp = CleavageParams(enzyme='trypsin', exception='auto')
+    from moPepGen import err
+    with patched((common, 'IndexDir', _GateIndexDir), (common, 'get_logger', lambda: NullLogger())):
+        try:
+            common.load_references(args=args, load_genome=load_genome, load_canonical_peptides=load_pool,
+                                   load_proteome=load_proteome, invalid_protein_as_noncoding=as_noncoding,
+                                   cleavage_params=cp)
+            raised = False
+        except err.InvalidIndexError:
+            raised = True
+    calls = _GateIndexDir.last.calls
+    if valid and raised:
+        return -1                  # a matching index was rejected
+    if not valid:
+        if not raised:
+            return -2              # an index with non-matching versions was used
+        if any(x != 'validate' for x in calls):
+            return -3              # data was loaded from an index that is then rejected
+        return OK
+    if not calls or calls[0] != 'validate':
+        return -3
+    return OK
+
+
+from mpgverif.hlib import concretize  # noqa: E402
+
+
+@cond('C12', bounds='load_references from an index directory for every combination of its load flags; recorded versions: '
+      'python / biopython equal or different, moPepGen version a.b.c with a in 0..2, b in 0..4, c in 0..1 (gate 1.3.0)',
+      encodes=['moPepGen.cli.common.load_references (index branch)', 'moPepGen.index.IndexDir.validate_metadata',
+               'moPepGen.version.MetaVersion.is_valid / is_valid_mpg_version / get_semver'],
+      stubs=['IndexDir loaders -> recorder (validate_metadata and MetaVersion real)'],
+      codes={-1: 'an index with matching versions was rejected',
+             -2: 'an index whose recorded versions do not match was used instead of rejected',
+             -3: 'data was loaded before / despite the version check'}, shim=False, timeout=400)
+def c12_version_gate(py_same: bool, bio_same: bool, a: int, b: int, c: int, load_genome: bool,
+                     load_pool: bool, load_proteome: bool, as_noncoding: bool) -> int:
+    """
+    pre: 0 <= a <= 2 and 0 <= b <= 4 and 0 <= c <= 1
+    post: _ >= 0
+    """
+    return _gate(py_same, bio_same, a, b, c, load_genome, load_pool, load_proteome, as_noncoding)
